@@ -13,7 +13,7 @@ from mpsa.report import Checker
 
 from . import server
 from .c09 import clean_value, guard_cfg
-from .common import SERVLET, WORKER, build_cfg, make_fallible
+from .common import SERVLET, WORKER, build_cfg, make_fallible, tuple_item
 from .fresh import fresh_chain
 
 
@@ -218,8 +218,9 @@ def check_wrapping(ck: Checker, rid: str, f: FuncInfo, out_q: set):
             if me != 'put' or r is None or sc.canon(r) not in out_q or not c.args:
                 continue
             item = c.args[0]
-            if isinstance(item, ast.Tuple) and len(item.elts) == 2:
-                v = item.elts[1]
+            resolved = tuple_item(cfg, n, item)
+            if resolved is not None:
+                v = resolved.elts[1]
             elif isinstance(item, ast.Name) and n.loops and cfg.nodes[n.loops[-1]].kind == 'for' and is_name(cfg.nodes[n.loops[-1]].ast.target, item.id):
                 # `for z in zip(uids, yy): q_out.put(z)` : results of a successful batch (yy proven non-exception)
                 hn = cfg.nodes[n.loops[-1]]
